@@ -484,4 +484,7 @@ static inline MapIt *MapIt_inc(MapIt *it)
   return it;
 }
 
+/* twins for the other spelling of an increment (`++it` for `it++` and vice versa): same effect.  X_inc yields the iterator after the step
+ * (exact); X_postinc made from X_inc is void, so a use of its value does not compile (UNDECIDED) instead of being modelled wrongly */
+#define MapIt_postinc(it_) ((void)MapIt_inc(it_))
 #endif
